@@ -16,7 +16,13 @@ package swarm
 //@ modifies elems(addrs)
 
 //@ func (d *blackHoleDetector) FilterAddrs
-//@ prop C10 C12
+//@ prop C10 C12 C20
 //@ ensures forall j int :: 0 <= j && j < len(valid) ==> (exists k int :: 0 <= k && k < len(addrs) && valid[j] == addrs[k])
-//@ opaque getFilterState
+//@ ensures forall k int :: 0 <= k && k < len(addrs) && !manet.IsPublicAddr(addrs[k]) ==> (exists j int :: 0 <= j && j < len(valid) && valid[j] == addrs[k])
+//@ ensures forall k int :: 0 <= k && k < len(addrs) && !isProtocolAddr(addrs[k], ma.P_UDP) && !isProtocolAddr(addrs[k], ma.P_IP6) ==>
+//@         (exists j int :: 0 <= j && j < len(valid) && valid[j] == addrs[k])
+//@ ensures (d.udp == nil || old(d.udp.state) == blackHoleStateAllowed) && (d.ipv6 == nil || old(d.ipv6.state) == blackHoleStateAllowed) ==>
+//@         forall k int :: 0 <= k && k < len(addrs) ==> (exists j int :: 0 <= j && j < len(valid) && valid[j] == addrs[k])
+//@ ensures d.readOnly ==> forall b *BlackHoleSuccessCounter :: b.requests == old(b.requests)
+//@ ensures forall b *BlackHoleSuccessCounter :: b.state == old(b.state)
 //@ modifies BlackHoleSuccessCounter.requests
